@@ -63,3 +63,57 @@ package types
 //@ ensures[ok]  (err == nil) <==> (validHex(trimPrefix(remoteTokenHex, "0x")) && len(hexdec(trimPrefix(remoteTokenHex, "0x"))) <= 32)
 //@ ensures[pad] err == nil ==> out == leftPad32(hexdec(trimPrefix(remoteTokenHex, "0x")))
 //@ loop 0 invariant[zero] i >= 0 && forall p: uint64 :: p < 32 ==> mem(makeslice, p) == 0
+
+// ======================================================================= genesis validation (C17)
+// Validation must reject any genesis in which two entries of a keyed list would occupy the same store key.
+// Keys are written as the key functions of keys.go compute them (proved equal to the accessors' raw keys in L2).
+
+//@ macro akey(l, j) := cat(l[j].Attester, "/")
+//@ macro lkey(l, j) := cat(l[j].Denom, "/")
+//@ macro pkey(l, j) := cat(keccak(cat(be32(l[j].RemoteDomain), l[j].RemoteToken)), "/")
+//@ macro nkey(l, j) := cat(be32(l[j].SourceDomain), be64(l[j].Nonce), "/")
+//@ macro mkey(l, j) := cat(be32(l[j].DomainId), "/")
+
+// In the loop invariants the key of the j-th entry of each list is an opaque function of j (vk*), revealed for
+// the entry at hand where the code computes it, and for all j in the final clauses.
+//@ specfun vkA(j: int): bytes := akey(gs.AttesterList, j)
+//@ specfun vkL(j: int): bytes := lkey(gs.PerMessageBurnLimitList, j)
+//@ specfun vkP(j: int): bytes := pkey(gs.TokenPairList, j)
+//@ specfun vkN(j: int): bytes := nkey(gs.UsedNoncesList, j)
+//@ specfun vkM(j: int): bytes := mkey(gs.TokenMessengerList, j)
+//@ macro seenInv(m, vk, n)  := rangeindex >= -1 && rangeindex < n && forall j: int :: 0 <= j && j <= rangeindex ==> mapHas(m, vk(j))
+//@ macro distinctTo(vk, hi) := forall j: int :: forall k: int :: 0 <= j && j < k && k <= hi ==> vk(j) != vk(k)
+
+//@ func (GenesisState) Validate() (err)
+//@ serves C17
+//@ without cat keccak
+//@ ensures[C17.nodup.attesters]  err == nil && revealAll(vkA) ==> forall j: int :: forall k: int :: 0 <= j && j < k && k < len(gs.AttesterList) ==> akey(gs.AttesterList, j) != akey(gs.AttesterList, k)
+//@ ensures[C17.nodup.limits]     err == nil && revealAll(vkL) ==> forall j: int :: forall k: int :: 0 <= j && j < k && k < len(gs.PerMessageBurnLimitList) ==> lkey(gs.PerMessageBurnLimitList, j) != lkey(gs.PerMessageBurnLimitList, k)
+//@ ensures[C17.nodup.tokenPairs] err == nil && revealAll(vkP) ==> forall j: int :: forall k: int :: 0 <= j && j < k && k < len(gs.TokenPairList) ==> pkey(gs.TokenPairList, j) != pkey(gs.TokenPairList, k)
+//@ ensures[C17.nodup.usedNonces] err == nil && revealAll(vkN) ==> forall j: int :: forall k: int :: 0 <= j && j < k && k < len(gs.UsedNoncesList) ==> nkey(gs.UsedNoncesList, j) != nkey(gs.UsedNoncesList, k)
+//@ ensures[C17.nodup.messengers] err == nil && revealAll(vkM) ==> forall j: int :: forall k: int :: 0 <= j && j < k && k < len(gs.TokenMessengerList) ==> mkey(gs.TokenMessengerList, j) != mkey(gs.TokenMessengerList, k)
+//@ assert@AttesterKey[key]             reveal(vkA(rangeindex + 1))
+//@ assert@PerMessageBurnLimitKey[key]  reveal(vkL(rangeindex + 1))
+//@ assert@TokenPairKey[key]            reveal(vkP(rangeindex + 1))
+//@ assert@UsedNonceKey[key]            reveal(vkN(rangeindex + 1))
+//@ assert@RemoteTokenMessengerKey[key] reveal(vkM(rangeindex + 1))
+//@ loop 0 invariant[seen]     seenInv(attesterIndexMap, vkA, len(gs.AttesterList))
+//@ loop 0 invariant[distinct] distinctTo(vkA, rangeindex)
+//@ loop 1 invariant[seen]     seenInv(perMessageBurnLimitIndexMap, vkL, len(gs.PerMessageBurnLimitList))
+//@ loop 1 invariant[distinct] distinctTo(vkL, rangeindex)
+//@ loop 1 invariant[keep0]    distinctTo(vkA, len(gs.AttesterList) - 1)
+//@ loop 2 invariant[seen]     seenInv(tokenPairIndexMap, vkP, len(gs.TokenPairList))
+//@ loop 2 invariant[distinct] distinctTo(vkP, rangeindex)
+//@ loop 2 invariant[keep0]    distinctTo(vkA, len(gs.AttesterList) - 1)
+//@ loop 2 invariant[keep1]    distinctTo(vkL, len(gs.PerMessageBurnLimitList) - 1)
+//@ loop 3 invariant[seen]     seenInv(usedNonceIndexMap, vkN, len(gs.UsedNoncesList))
+//@ loop 3 invariant[distinct] distinctTo(vkN, rangeindex)
+//@ loop 3 invariant[keep0]    distinctTo(vkA, len(gs.AttesterList) - 1)
+//@ loop 3 invariant[keep1]    distinctTo(vkL, len(gs.PerMessageBurnLimitList) - 1)
+//@ loop 3 invariant[keep2]    distinctTo(vkP, len(gs.TokenPairList) - 1)
+//@ loop 4 invariant[seen]     seenInv(tokenMessengerIndexMap, vkM, len(gs.TokenMessengerList))
+//@ loop 4 invariant[distinct] distinctTo(vkM, rangeindex)
+//@ loop 4 invariant[keep0]    distinctTo(vkA, len(gs.AttesterList) - 1)
+//@ loop 4 invariant[keep1]    distinctTo(vkL, len(gs.PerMessageBurnLimitList) - 1)
+//@ loop 4 invariant[keep2]    distinctTo(vkP, len(gs.TokenPairList) - 1)
+//@ loop 4 invariant[keep3]    distinctTo(vkN, len(gs.UsedNoncesList) - 1)
